@@ -42,7 +42,7 @@ def build_harness():
     t0 = time.time()
     lock = os.path.join(HARNESS, "Cargo.lock")
     if not os.path.exists(lock):
-        shutil.copy("/repo/Cargo.lock", lock)
+        shutil.copy(os.path.join(os.environ.get("VERIF_REPO", "/repo"), "Cargo.lock"), lock)
     env = {"CARGO_NET_OFFLINE": "true"}
     try:
         rc, out = sh(["cargo", "build", "--offline", "--quiet"], timeout=3600, env=env, cwd=HARNESS)
